@@ -373,7 +373,11 @@ class ProgProp:
             res.reject = "compiler-rejects:" + ref["reject"].split(":")[0]
             return res
         data = rw.unhx(ref["header"]) + rw.unhx(ref["payload"])
-        x, err = pd.xdis_dump(data, self.max_code(ctx))
+        rw.EXTRA_ROUTES[0] = "argval" in self.aspects
+        try:
+            x, err = pd.xdis_dump(data, self.max_code(ctx))
+        finally:
+            rw.EXTRA_ROUTES[0] = False
         res.sample = self.sample(case, ref)
         res.classes = ["version:" + v, "source:" + case["k"]]
         if err:
